@@ -7,6 +7,7 @@ import (
 	"sort"
 	"strings"
 	"sync"
+	"testing/fstest"
 	"time"
 
 	coraza "github.com/corazawaf/coraza/v3"
@@ -190,6 +191,30 @@ func C15(run *vf.Run) {
 			run.Eval("ipmatch-" + a + ip)
 		}
 	}
+	// @pmFromFile and @pmFromDataset: the phrases of a file / data set (blank and whitespace-only lines,
+	// comments, padded phrases) behave like @pm on the same phrases: pair index of @pm "ab Aa"
+	pmIdx := -1
+	for k, p := range opPairs {
+		if p[0] == "pm" && p[1] == "ab Aa" {
+			pmIdx = k
+		}
+	}
+	fileOp, err1 := operators.Get("pmFromFile", plugintypes.OperatorOptions{Arguments: "words.txt", Root: fstest.MapFS{"words.txt": &fstest.MapFile{Data: []byte("ab\n   \n\t\n# a comment\n  # an indented comment\n  Aa  \n\n")}}})
+	dsOp, err2 := operators.Get("pmFromDataset", plugintypes.OperatorOptions{Arguments: "ds", Datasets: map[string][]string{"ds": {"ab", "Aa"}}})
+	if err1 != nil || err2 != nil || pmIdx < 0 {
+		run.Inconclusive("pmFromFile / pmFromDataset rejected: %v %v", err1, err2)
+	} else {
+		for _, r := range rows {
+			for name, o := range map[string]plugintypes.Operator{"pmFromFile": fileOp, "pmFromDataset": dsOp} {
+				got, p := eval(o, string(r.In))
+				if p != "" {
+					report("panic", name, "ab / Aa", r.In, p)
+				} else if got != r.Row[pmIdx] {
+					report("predicate-differs", name, "phrases ab, Aa (file with blank, whitespace-only and comment lines)", r.In, fmt.Sprintf("the operator returned %v, membership of a listed phrase is %v", got, r.Row[pmIdx]))
+				}
+			}
+		}
+	}
 	c15RuleLevel(run, report)
 }
 
@@ -240,7 +265,9 @@ func c15RuleLevel(run *vf.Run, report func(kind, op, arg string, in []byte, deta
 	}
 	for _, c := range caps {
 		var sb strings.Builder
-		fmt.Fprintf(&sb, "SecRuleEngine On\nSecRule REQUEST_HEADERS:x-v \"@%s %s\" \"id:1,phase:1,pass,capture", c.op, c.arg)
+		// an earlier capturing rule fills TX.0-3, so a group that does not take part in the next match must be reset
+		sb.WriteString("SecRuleEngine On\nSecRule REQUEST_HEADERS:x-w \"@rx (p)(q)(r)\" \"id:9,phase:1,pass,capture\"\n")
+		fmt.Fprintf(&sb, "SecRule REQUEST_HEADERS:x-v \"@%s %s\" \"id:1,phase:1,pass,capture", c.op, c.arg)
 		for i := 0; i <= 2; i++ {
 			fmt.Fprintf(&sb, ",setvar:'tx.c%d=%%{tx.%d}'", i, i)
 		}
@@ -251,6 +278,7 @@ func c15RuleLevel(run *vf.Run, report func(kind, op, arg string, in []byte, deta
 			continue
 		}
 		tx := w.NewTransaction()
+		tx.AddRequestHeader("X-W", "pqr")
 		tx.AddRequestHeader("X-V", c.val)
 		tx.ProcessRequestHeaders()
 		vars := tx.(plugintypes.TransactionState).Variables().TX()
